@@ -114,10 +114,13 @@ def bad_rot(rng, n, tag):
     while True:
         m = log_uniform(rng, 1e-5, 1.0)
         P = R.copy()
-        if rng.random() < 0.5:
+        u = rng.random()
+        if u < 0.4:
             P[rng.integers(n), rng.integers(n)] += m * rng.choice([-1.0, 1.0])
-        else:
+        elif u < 0.8:
             P = P + m * rng.normal(size=(n, n))
+        else:                       # uniform scaling: the residual R R' - I is purely diagonal
+            P = P * (1 + log_uniform(rng, 2e-6, 1e-2) * rng.choice([-1.0, 1.0]))
         if np.linalg.norm(P @ P.T - np.eye(n)) >= 4e-6:
             return P
 
@@ -367,42 +370,177 @@ def _side(n):
     return 'expr'
 
 
-def _skel(n):
-    """boolean structure, comparison operators, thresholds, literal rows, calls of other predicates with their keywords"""
-    if isinstance(n, ast.BoolOp):
-        return [type(n.op).__name__.lower()] + [_skel(v) for v in n.values]
-    if isinstance(n, ast.UnaryOp) and isinstance(n.op, ast.Not):
-        return ['not', _skel(n.operand)]
-    if isinstance(n, ast.Compare):
-        if len(n.ops) != 1:
-            return ['chain']
-        return [type(n.ops[0]).__name__, _side(n.left), _side(n.comparators[0])]
-    if isinstance(n, ast.Call):
-        kws = sorted([k.arg, _dotted(k.value) if isinstance(k.value, (ast.Name, ast.Attribute)) else
-                      (repr(k.value.value) if isinstance(k.value, ast.Constant) else '?')] for k in n.keywords)
-        inner = [_skel(a) for a in n.args if isinstance(a, (ast.BoolOp, ast.Compare))]
-        return ['call', _dotted(n.func), kws] + inner
-    if isinstance(n, ast.Name):
-        return ['name', n.id]
-    if isinstance(n, ast.Constant):
-        return ['const', repr(n.value)]
-    return ['expr']
+def _kws(call):
+    return sorted([k.arg, _dotted(k.value) if isinstance(k.value, (ast.Name, ast.Attribute)) else
+                   (repr(k.value.value) if isinstance(k.value, ast.Constant) else '?')] for k in call.keywords)
+
+
+_TRUE, _FALSE = ['const', 'True'], ['const', 'False']
+
+
+def _nnf(f):
+    """negation normal form of the and/or/not skeleton, flattened; comparison operators are NOT flipped (NaN)"""
+    if f[0] == 'not':
+        g = f[1]
+        if g[0] == 'not':
+            return _nnf(g[1])
+        if g[0] in ('and', 'or'):
+            return _nnf(['or' if g[0] == 'and' else 'and'] + [['not', x] for x in g[1:]])
+        if g == _TRUE:
+            return _FALSE
+        if g == _FALSE:
+            return _TRUE
+        if g[0] == 'ite':
+            return ['ite', _nnf(g[1]), _nnf(['not', g[2]]), _nnf(['not', g[3]])]
+        return ['not', g]
+    if f[0] in ('and', 'or'):
+        unit, zero = (_TRUE, _FALSE) if f[0] == 'and' else (_FALSE, _TRUE)
+        out = []
+        for x in f[1:]:
+            x = _nnf(x)
+            if x == unit:
+                continue
+            if x == zero:
+                return zero
+            out += x[1:] if x[0] == f[0] else [x]
+        return unit if not out else out[0] if len(out) == 1 else [f[0]] + out
+    if f[0] == 'ite':
+        c, t, e = _nnf(f[1]), _nnf(f[2]), _nnf(f[3])
+        plain = lambda x: x[0] not in ('raise', 'none')      # noqa: E731
+        if t == _TRUE and plain(e):
+            return _nnf(['or', c, e])
+        if t == _FALSE and plain(e):
+            return _nnf(['and', ['not', c], e])
+        if e == _FALSE and plain(t):
+            return _nnf(['and', c, t])
+        if e == _TRUE and plain(t):
+            return _nnf(['or', ['not', c], t])
+        return ['ite', c, t, e]
+    return f
+
+
+class _Summ:
+    """normalised semantic summary of one function: single-assignment locals inlined, early-return chains folded into the
+    boolean formula the function returns; `fine=True` keeps the (alpha-renamed) source of every atom, `fine=False` only its
+    kind (comparison operator, which side is tol*_eps / a literal row / a shape, callee and keywords)"""
+
+    def __init__(self, f):
+        self.f = f
+        self.params = [a.arg for a in f.args.args + f.args.kwonlyargs]
+        body = [st for st in f.body if not (isinstance(st, ast.Expr) and isinstance(st.value, ast.Constant))]
+        counts = {}
+        for n in ast.walk(ast.Module(body=body, type_ignores=[])):
+            if isinstance(n, ast.Name) and isinstance(n.ctx, ast.Store):
+                counts[n.id] = counts.get(n.id, 0) + 1
+        self.single = {k for k, v in counts.items() if v == 1 and k not in self.params}
+        self.env = {}
+        self.locals = {}
+        self.body = body
+
+    # -- inlining
+    def inline(self, node):
+        env = self.env
+
+        class T(ast.NodeTransformer):
+            def visit_Name(self_, n):
+                if isinstance(n.ctx, ast.Load) and n.id in env:
+                    return ast.parse(ast.unparse(env[n.id]), mode='eval').body
+                return n
+        return T().visit(ast.parse(ast.unparse(node), mode='eval').body)
+
+    def rename(self, node):
+        """alpha-rename the locals that could not be inlined (order of first appearance)"""
+        locs = self.locals
+        params = self.params
+
+        class T(ast.NodeTransformer):
+            def visit_Name(self_, n):
+                if n.id in params or n.id not in allstores:
+                    return n
+                locs.setdefault(n.id, f'_l{len(locs)}')
+                return ast.Name(id=locs[n.id], ctx=n.ctx)
+        allstores = self.allstores
+        return T().visit(node)
+
+    # -- atoms
+    def atom(self, e, fine):
+        if isinstance(e, ast.BoolOp):
+            return [type(e.op).__name__.lower()] + [self.atom(v, fine) for v in e.values]
+        if isinstance(e, ast.UnaryOp) and isinstance(e.op, ast.Not):
+            return ['not', self.atom(e.operand, fine)]
+        if isinstance(e, ast.IfExp):
+            return ['ite', self.atom(e.test, fine), self.atom(e.body, fine), self.atom(e.orelse, fine)]
+        if isinstance(e, ast.Constant):
+            return ['const', repr(e.value)]
+        if fine:
+            return ['src', ast.unparse(self.rename(e))]
+        if isinstance(e, ast.Compare):
+            if len(e.ops) != 1:
+                return ['chain']
+            return [type(e.ops[0]).__name__, _side(e.left), _side(e.comparators[0])]
+        if isinstance(e, ast.Call):
+            inner = [self.atom(a, fine) for a in e.args if isinstance(a, (ast.BoolOp, ast.Compare))]
+            return ['call', _dotted(e.func), _kws(e)] + inner
+        if isinstance(e, ast.Name):
+            return ['name', e.id if e.id in self.params else 'local']
+        return ['expr']
+
+    # -- statements -> formula
+    def fold(self, stmts, fine):
+        for k, st in enumerate(stmts):
+            if isinstance(st, ast.Assign) and len(st.targets) == 1 and isinstance(st.targets[0], ast.Name) and st.targets[0].id in self.single:
+                self.env[st.targets[0].id] = self.inline(st.value)
+            elif isinstance(st, ast.Return):
+                return ['none'] if st.value is None else self.atom(self.inline(st.value), fine)
+            elif isinstance(st, ast.Raise):
+                return ['raise']
+            elif isinstance(st, ast.If):
+                rest = stmts[k + 1:]
+                saved = dict(self.env)
+                t = self.fold(list(st.body) + rest, fine)
+                self.env = dict(saved)
+                e = self.fold(list(st.orelse) + rest, fine)
+                self.env = saved
+                return ['ite', self.atom(self.inline(st.test), fine), t, e]
+        return ['none']
+
+    def run(self):
+        self.allstores = {n.id for st in self.body for n in ast.walk(st) if isinstance(n, ast.Name) and isinstance(n.ctx, ast.Store)}
+        self.env = {}
+        coarse = _nnf(self.fold(self.body, False))
+        self.env, self.locals = {}, {}
+        fine = _nnf(self.fold(self.body, True))
+        # library callees (predicates, argument normalisers) with keywords and literal positional arguments, position-independent;
+        # numpy / math / builtins and method calls on values are arithmetic, not part of the summary
+        self.env = {}
+        skip_roots = {'np', 'math', 'sympy', 'abs', 'len', 'isinstance', 'all', 'any', 'map', 'range', 'type', 'float', 'int', 'bool',
+                      'list', 'tuple', 'ValueError', 'TypeError', 'super', 'getattr', 'copy', '?'} | set(self.params) | self.allstores
+        callees = sorted([_dotted(n.func), _kws(n), [_side(x) for x in n.args if isinstance(x, ast.Constant)]]
+                         for st in self.body for n in ast.walk(st)
+                         if isinstance(n, ast.Call) and _dotted(n.func).split('.')[0] not in skip_roots and _dotted(n.func) != '?')
+        pos = self.f.args.args
+        defaults = {}
+        for a, d in zip(pos[len(pos) - len(self.f.args.defaults):], self.f.args.defaults):
+            defaults[a.arg] = d.value if isinstance(d, ast.Constant) else '<expr>'
+        return {'defaults': defaults, 'formula': coarse, 'callees': callees}, fine
 
 
 def _stmts(ss):
+    """statement layout (not compared as a requirement: a difference here alone only escalates the numeric correspondence)"""
     r = []
     for st in ss:
         if isinstance(st, ast.Return):
-            r.append(['return', _skel(st.value) if st.value is not None else None])
+            r.append('return')
         elif isinstance(st, ast.If):
-            r.append(['if', _skel(st.test), _stmts(st.body), _stmts(st.orelse)])
+            r.append(['if', _stmts(st.body), _stmts(st.orelse)])
         elif isinstance(st, ast.Raise):
-            r.append(['raise'])
-        # assignments / expression statements carry no test: renamed locals and temporaries do not change the skeleton
+            r.append('raise')
+        else:
+            r.append(type(st).__name__)
     return r
 
 
-def fn_skeleton(path, name, cls=None):
+def fn_summary(path, name, cls=None):
     tree = ast.parse(open(os.path.join(core.REPO, path)).read())
     scope = tree.body
     if cls:
@@ -410,71 +548,235 @@ def fn_skeleton(path, name, cls=None):
     f = [x for x in scope if isinstance(x, ast.FunctionDef) and x.name == name]
     if len(f) != 1:
         raise ValueError(f"{path}: {len(f)} definitions of {name}")
-    f = f[0]
-    pos = f.args.args
-    defaults = {}
-    for a, d in zip(pos[len(pos) - len(f.args.defaults):], f.args.defaults):
-        defaults[a.arg] = d.value if isinstance(d, ast.Constant) else ('<expr>', ast.dump(d))
-    body = [st for st in f.body if not (isinstance(st, ast.Expr) and isinstance(st.value, ast.Constant))]
-    # argument-normalising calls anywhere in the body (getvector(q, 4) converts and raises ValueError for another length):
-    # recorded independently of their position, so a temporary holding the result does not change the skeleton
-    norm = sorted(['normalise', _dotted(n.func)] + [_side(x) for x in n.args[1:]] for st in body for n in ast.walk(st)
-                  if isinstance(n, ast.Call) and _dotted(n.func).split('.')[-1] in ('getvector', 'getmatrix'))
-    return defaults, _stmts(body) + norm
+    hard, fine = _Summ(f[0]).run()
+    body = [st for st in f[0].body if not (isinstance(st, ast.Expr) and isinstance(st.value, ast.Constant))]
+    return hard, fine, _stmts(body)
 
 
 _N, _3, _2, _V, _Q = ('spatialmath/base/transformsNd.py', 'spatialmath/base/transforms3d.py', 'spatialmath/base/transforms2d.py',
                       'spatialmath/base/vectors.py', 'spatialmath/base/quaternions.py')
-_LT = ['Lt', 'expr', 'tol*_eps']
-_TW_ISVALID = [['if', ['call', 'base.isvector', []], [['return', ['const', 'True']]],
-                [['if', ['call', 'base.ismatrix', []],
-                  [['if', ['not', ['call', 'base.iszerovec', []]], [['return', ['const', 'False']]], []],
-                   ['if', ['not', ['call', 'base.iszerovec', []]], [['return', ['const', 'False']]], []],
-                   ['if', ['and', ['name', 'check'], ['not', ['call', 'base.isskew', []]]], [['return', ['const', 'False']]], []],
-                   ['return', ['const', 'True']]], []]]],
-               ['return', ['const', 'False']]]
-# (file, function, class, Consts name of the `tol` default or None, expected skeleton)
+_U = 'spatialmath/smuserlist.py'
+# (file, function, class, Consts name of the `tol` default or None)
 MODELLED = [
-    (_N, 'isR', None, 'isR_tol', [['return', ['and', _LT, ['Gt', 'expr', 'const:0']]]]),
-    (_N, 'isskew', None, 'isskew_tol', [['return', _LT]]),
-    (_N, 'isskewa', None, 'isskewa_tol', [['return', ['and', _LT, ['call', 'np.all', [], ['Eq', 'expr', 'const:0']]]]]),
-    (_N, 'iseye', None, 'iseye_tol', [['if', ['or', ['NotEq', 'expr', 'const:2'], ['NotEq', 'expr', 'expr']], [['return', ['const', 'False']]], []],
-                                      ['return', _LT]]),
-    (_3, 'ishom', None, 'ishom_tol', [['return', ['and', ['call', 'isinstance', []], ['Eq', 'expr', 'shape:4,4'],
-                                                  ['or', ['not', ['name', 'check']],
-                                                   ['and', ['call', 'base.isR', [['tol', 'tol']]],
-                                                    ['call', 'np.all', [], ['Eq', 'expr', 'row:0,0,0,1']]]]]]]),
-    (_3, 'isrot', None, 'isrot_tol', [['return', ['and', ['call', 'isinstance', []], ['Eq', 'expr', 'shape:3,3'],
-                                                  ['or', ['not', ['name', 'check']], ['call', 'base.isR', [['tol', 'tol']]]]]]]),
-    (_2, 'ishom2', None, None, [['return', ['and', ['call', 'isinstance', []], ['Eq', 'expr', 'shape:3,3'],
-                                            ['or', ['not', ['name', 'check']],
-                                             ['and', ['call', 'base.isR', []], ['call', 'np.all', [], ['Eq', 'expr', 'row:0,0,1']]]]]]]),
-    (_2, 'isrot2', None, None, [['return', ['and', ['call', 'isinstance', []], ['Eq', 'expr', 'shape:2,2'],
-                                            ['or', ['not', ['name', 'check']], ['call', 'base.isR', []]]]]]),
-    (_V, 'isunitvec', None, 'isunitvec_tol', [['return', _LT]]),
-    (_V, 'iszerovec', None, 'iszerovec_tol', [['return', _LT]]),
-    (_V, 'iszero', None, 'iszero_tol', [['return', _LT]]),
-    (_V, 'isunittwist', None, 'isunittwist_tol',
-     [['if', ['Eq', 'expr', 'const:6'],
-       [['return', ['or', ['call', 'isunitvec', [['tol', 'tol']]], ['and', _LT, ['call', 'isunitvec', [['tol', 'tol']]]]]]], [['raise']]], ['normalise', 'getvector']]),
-    (_V, 'isunittwist2', None, 'isunittwist2_tol',
-     [['if', ['Eq', 'expr', 'const:3'],
-       [['return', ['or', ['call', 'isunitvec', [['tol', 'tol']]], ['and', _LT, ['call', 'isunitvec', [['tol', 'tol']]]]]]], [['raise']]], ['normalise', 'getvector']]),
-    # isunitvec(getvector(q, 4), tol=tol): the length test is part of the skeleton; the model (isunit_q) is typed on 4-vectors
-    (_Q, 'isunit', None, 'isunit_tol', [['return', ['call', 'base.isunitvec', [['tol', 'tol']]]], ['normalise', 'base.getvector', 'const:4']]),
-    ('spatialmath/twist.py', 'isvalid', 'Twist3', None, _TW_ISVALID),
-    ('spatialmath/twist.py', 'isvalid', 'Twist2', None, _TW_ISVALID),
-    ('spatialmath/quaternion.py', 'isvalid', 'UnitQuaternion', None,
-     [['return', ['and', ['Eq', 'expr', 'shape:4'], ['or', ['not', ['name', 'check']], ['call', 'base.isunitvec', []]]]]]),
-    ('spatialmath/pose3d.py', 'isvalid', 'SO3', None, [['return', ['call', 'base.isrot', [['check', 'True']]]]]),
-    ('spatialmath/pose3d.py', 'isvalid', 'SE3', None, [['return', ['call', 'base.ishom', [['check', 'check']]]]]),
-    ('spatialmath/pose2d.py', 'isvalid', 'SO2', None, [['return', ['or', ['not', ['name', 'check']], ['call', 'tr.isrot2', [['check', 'True']]]]]]),
-    ('spatialmath/pose2d.py', 'isvalid', 'SE2', None, [['return', ['or', ['not', ['name', 'check']], ['call', 'tr.ishom2', [['check', 'True']]]]]]),
-    ('spatialmath/smuserlist.py', '_import', 'SMUserList', None,
-     [['if', ['or', ['not', ['name', 'check']], ['call', 'self.isvalid', [['check', 'check']]]], [['return', ['name', 'x']]],
-       [['return', ['const', 'None']]]]]),
+    (_N, 'isR', None, 'isR_tol'), (_N, 'isskew', None, 'isskew_tol'), (_N, 'isskewa', None, 'isskewa_tol'), (_N, 'iseye', None, 'iseye_tol'),
+    (_3, 'ishom', None, 'ishom_tol'), (_3, 'isrot', None, 'isrot_tol'), (_2, 'ishom2', None, None), (_2, 'isrot2', None, None),
+    (_V, 'isunitvec', None, 'isunitvec_tol'), (_V, 'iszerovec', None, 'iszerovec_tol'), (_V, 'iszero', None, 'iszero_tol'),
+    (_V, 'isunittwist', None, 'isunittwist_tol'), (_V, 'isunittwist2', None, 'isunittwist2_tol'), (_Q, 'isunit', None, 'isunit_tol'),
+    ('spatialmath/twist.py', 'isvalid', 'Twist3', None), ('spatialmath/twist.py', 'isvalid', 'Twist2', None),
+    ('spatialmath/quaternion.py', 'isvalid', 'UnitQuaternion', None),
+    ('spatialmath/pose3d.py', 'isvalid', 'SO3', None), ('spatialmath/pose3d.py', 'isvalid', 'SE3', None),
+    ('spatialmath/pose2d.py', 'isvalid', 'SO2', None), ('spatialmath/pose2d.py', 'isvalid', 'SE2', None),
+    (_U, '_import', 'SMUserList', None), (_U, 'arghandler', 'SMUserList', None),
+    (_U, '__setitem__', 'SMUserList', None), (_U, 'append', 'SMUserList', None), (_U, 'extend', 'SMUserList', None), (_U, 'insert', 'SMUserList', None),
 ]
+# registrations of the numeric correspondence that depend on a function (escalated to thorough size when only its text changed)
+DEPENDS = {
+    'isR': ['m_isR3', 'm_isR2', 'm_isrot', 'm_ishom', 'm_isrot2', 'm_ishom2', 'm_SO3_isvalid', 'm_SE3_isvalid', 'm_SO2_isvalid', 'm_SE2_isvalid'],
+    'isrot': ['m_isrot', 'm_isrot_nocheck', 'm_SO3_isvalid'], 'ishom': ['m_ishom', 'm_ishom_nocheck', 'm_SE3_isvalid'],
+    'isrot2': ['m_isrot2', 'm_SO2_isvalid'], 'ishom2': ['m_ishom2', 'm_SE2_isvalid'],
+    'isskew': ['m_isskew3', 'm_isskew2', 'm_Twist3_isvalid', 'm_Twist2_isvalid'], 'isskewa': ['m_isskewa4', 'm_isskewa3'], 'iseye': ['m_iseye3'],
+    'isunitvec': ['m_isunitvec2', 'm_isunitvec3', 'm_isunitvec4', 'm_isunit_q', 'm_isunittwist', 'm_isunittwist2', 'm_UQ_isvalid'],
+    'iszerovec': ['m_iszerovec2', 'm_iszerovec3', 'm_iszerovec4', 'm_Twist3_isvalid', 'm_Twist2_isvalid'], 'iszero': ['m_iszero'],
+    'isunittwist': ['m_isunittwist'], 'isunittwist2': ['m_isunittwist2'], 'isunit': ['m_isunit_q'],
+    'Twist3.isvalid': ['m_Twist3_isvalid', 'm_Twist3_isvalid_nocheck'], 'Twist2.isvalid': ['m_Twist2_isvalid'],
+    'UnitQuaternion.isvalid': ['m_UQ_isvalid'], 'SO3.isvalid': ['m_SO3_isvalid'], 'SE3.isvalid': ['m_SE3_isvalid'],
+    'SO2.isvalid': ['m_SO2_isvalid'], 'SE2.isvalid': ['m_SE2_isvalid'],
+}
+# normalised semantic summaries the hand models were written against (generated once from the tree the models mirror, then fixed)
+EXPECTED = {'isR': {'hard': {'defaults': {'tol': 100}, 'formula': ['and', ['Lt', 'expr', 'tol*_eps'], ['Gt', 'expr', 'const:0']], 'callees': []},
+         'fine': ['and', ['src', 'np.linalg.norm(R @ R.T - np.eye(R.shape[0])) < tol * _eps'], ['src', 'np.linalg.det(R) > 0']],
+         'layout': ['return']},
+ 'isskew': {'hard': {'defaults': {'tol': 10}, 'formula': ['Lt', 'expr', 'tol*_eps'], 'callees': []},
+            'fine': ['src', 'np.linalg.norm(S + S.T) < tol * _eps'],
+            'layout': ['return']},
+ 'isskewa': {'hard': {'defaults': {'tol': 10},
+                      'formula': ['and', ['Lt', 'expr', 'tol*_eps'], ['call', 'np.all', [], ['Eq', 'expr', 'const:0']]],
+                      'callees': []},
+             'fine': ['and', ['src', 'np.linalg.norm(S[0:-1, 0:-1] + S[0:-1, 0:-1].T) < tol * _eps'], ['src', 'np.all(S[-1, :] == 0)']],
+             'layout': ['return']},
+ 'iseye': {'hard': {'defaults': {'tol': 10},
+                    'formula': ['and', ['not', ['NotEq', 'expr', 'const:2']], ['not', ['NotEq', 'expr', 'expr']], ['Lt', 'expr', 'tol*_eps']],
+                    'callees': []},
+           'fine': ['and', ['not', ['src', 'len(S.shape) != 2']], ['not', ['src', 'S.shape[0] != S.shape[1]']],
+                    ['src', 'np.linalg.norm(S - np.eye(S.shape[0])) < tol * _eps']],
+           'layout': ['Assign', ['if', ['return'], []], 'return']},
+ 'ishom': {'hard': {'defaults': {'check': False, 'tol': 100},
+                    'formula': ['and', ['call', 'isinstance', []], ['Eq', 'expr', 'shape:4,4'],
+                                ['or', ['not', ['name', 'check']],
+                                 ['and', ['call', 'base.isR', [['tol', 'tol']]], ['call', 'np.all', [], ['Eq', 'expr', 'row:0,0,0,1']]]]],
+                    'callees': [['base.isR', [['tol', 'tol']], []]]},
+           'fine': ['and', ['src', 'isinstance(T, np.ndarray)'], ['src', 'T.shape == (4, 4)'],
+                    ['or', ['not', ['src', 'check']],
+                     ['and', ['src', 'base.isR(T[:3, :3], tol=tol)'], ['src', 'np.all(T[3, :] == np.array([0, 0, 0, 1]))']]]],
+           'layout': ['return']},
+ 'isrot': {'hard': {'defaults': {'check': False, 'tol': 100},
+                    'formula': ['and', ['call', 'isinstance', []], ['Eq', 'expr', 'shape:3,3'],
+                                ['or', ['not', ['name', 'check']], ['call', 'base.isR', [['tol', 'tol']]]]],
+                    'callees': [['base.isR', [['tol', 'tol']], []]]},
+           'fine': ['and', ['src', 'isinstance(R, np.ndarray)'], ['src', 'R.shape == (3, 3)'],
+                    ['or', ['not', ['src', 'check']], ['src', 'base.isR(R, tol=tol)']]],
+           'layout': ['return']},
+ 'ishom2': {'hard': {'defaults': {'check': False},
+                     'formula': ['and', ['call', 'isinstance', []], ['Eq', 'expr', 'shape:3,3'],
+                                 ['or', ['not', ['name', 'check']],
+                                  ['and', ['call', 'base.isR', []], ['call', 'np.all', [], ['Eq', 'expr', 'row:0,0,1']]]]],
+                     'callees': [['base.isR', [], []]]},
+            'fine': ['and', ['src', 'isinstance(T, np.ndarray)'], ['src', 'T.shape == (3, 3)'],
+                     ['or', ['not', ['src', 'check']], ['and', ['src', 'base.isR(T[:2, :2])'], ['src', 'np.all(T[2, :] == np.array([0, 0, 1]))']]]],
+            'layout': ['return']},
+ 'isrot2': {'hard': {'defaults': {'check': False},
+                     'formula': ['and', ['call', 'isinstance', []], ['Eq', 'expr', 'shape:2,2'],
+                                 ['or', ['not', ['name', 'check']], ['call', 'base.isR', []]]],
+                     'callees': [['base.isR', [], []]]},
+            'fine': ['and', ['src', 'isinstance(R, np.ndarray)'], ['src', 'R.shape == (2, 2)'],
+                     ['or', ['not', ['src', 'check']], ['src', 'base.isR(R)']]],
+            'layout': ['return']},
+ 'isunitvec': {'hard': {'defaults': {'tol': 10}, 'formula': ['Lt', 'expr', 'tol*_eps'], 'callees': []},
+               'fine': ['src', 'abs(np.linalg.norm(v) - 1) < tol * _eps'],
+               'layout': ['return']},
+ 'iszerovec': {'hard': {'defaults': {'tol': 10}, 'formula': ['Lt', 'expr', 'tol*_eps'], 'callees': []},
+               'fine': ['src', 'np.linalg.norm(v) < tol * _eps'],
+               'layout': ['return']},
+ 'iszero': {'hard': {'defaults': {'tol': 10}, 'formula': ['Lt', 'expr', 'tol*_eps'], 'callees': []},
+            'fine': ['src', 'abs(v) < tol * _eps'],
+            'layout': ['return']},
+ 'isunittwist': {'hard': {'defaults': {'tol': 10},
+                          'formula': ['ite', ['Eq', 'expr', 'const:6'],
+                                      ['or', ['call', 'isunitvec', [['tol', 'tol']]],
+                                       ['and', ['Lt', 'expr', 'tol*_eps'], ['call', 'isunitvec', [['tol', 'tol']]]]],
+                                      ['raise']],
+                          'callees': [['getvector', [], []], ['isunitvec', [['tol', 'tol']], []], ['isunitvec', [['tol', 'tol']], []]]},
+                 'fine': ['ite', ['src', 'len(v) == 6'],
+                          ['or', ['src', 'isunitvec(v[3:6], tol=tol)'],
+                           ['and', ['src', 'np.linalg.norm(v[3:6]) < tol * _eps'], ['src', 'isunitvec(v[0:3], tol=tol)']]],
+                          ['raise']],
+                 'layout': ['Assign', ['if', ['return'], ['raise']]]},
+ 'isunittwist2': {'hard': {'defaults': {'tol': 10},
+                           'formula': ['ite', ['Eq', 'expr', 'const:3'],
+                                       ['or', ['call', 'isunitvec', [['tol', 'tol']]],
+                                        ['and', ['Lt', 'expr', 'tol*_eps'], ['call', 'isunitvec', [['tol', 'tol']]]]],
+                                       ['raise']],
+                           'callees': [['getvector', [], []], ['isunitvec', [['tol', 'tol']], []], ['isunitvec', [['tol', 'tol']], []]]},
+                  'fine': ['ite', ['src', 'len(v) == 3'],
+                           ['or', ['src', 'isunitvec(v[2], tol=tol)'],
+                            ['and', ['src', 'np.abs(v[2]) < tol * _eps'], ['src', 'isunitvec(v[0:2], tol=tol)']]],
+                           ['raise']],
+                  'layout': ['Assign', ['if', ['return'], ['raise']]]},
+ 'isunit': {'hard': {'defaults': {'tol': 100},
+                     'formula': ['call', 'base.isunitvec', [['tol', 'tol']]],
+                     'callees': [['base.getvector', [], ['const:4']], ['base.isunitvec', [['tol', 'tol']], []]]},
+            'fine': ['src', 'base.isunitvec(base.getvector(q, 4), tol=tol)'],
+            'layout': ['return']},
+ 'Twist3.isvalid': {'hard': {'defaults': {'check': True},
+                             'formula': ['or', ['call', 'base.isvector', []],
+                                         ['and', ['call', 'base.ismatrix', []], ['call', 'base.iszerovec', []], ['call', 'base.iszerovec', []],
+                                          ['or', ['not', ['name', 'check']], ['call', 'base.isskew', []]]]],
+                             'callees': [['base.ismatrix', [], []], ['base.isskew', [], []], ['base.isvector', [], ['const:6']],
+                                         ['base.iszerovec', [], []], ['base.iszerovec', [], []]]},
+                    'fine': ['or', ['src', 'base.isvector(v, 6)'],
+                             ['and', ['src', 'base.ismatrix(v, (4, 4))'], ['src', 'base.iszerovec(v.diagonal())'], ['src', 'base.iszerovec(v[3, :])'],
+                              ['or', ['not', ['src', 'check']], ['src', 'base.isskew(v[:3, :3])']]]],
+                    'layout': [['if', ['return'], [['if', [['if', ['return'], []], ['if', ['return'], []], ['if', ['return'], []], 'return'], []]]],
+                               'return']},
+ 'Twist2.isvalid': {'hard': {'defaults': {'check': True},
+                             'formula': ['or', ['call', 'base.isvector', []],
+                                         ['and', ['call', 'base.ismatrix', []], ['call', 'base.iszerovec', []], ['call', 'base.iszerovec', []],
+                                          ['or', ['not', ['name', 'check']], ['call', 'base.isskew', []]]]],
+                             'callees': [['base.ismatrix', [], []], ['base.isskew', [], []], ['base.isvector', [], ['const:3']],
+                                         ['base.iszerovec', [], []], ['base.iszerovec', [], []]]},
+                    'fine': ['or', ['src', 'base.isvector(v, 3)'],
+                             ['and', ['src', 'base.ismatrix(v, (3, 3))'], ['src', 'base.iszerovec(v.diagonal())'], ['src', 'base.iszerovec(v[2, :])'],
+                              ['or', ['not', ['src', 'check']], ['src', 'base.isskew(v[:2, :2])']]]],
+                    'layout': [['if', ['return'], [['if', [['if', ['return'], []], ['if', ['return'], []], ['if', ['return'], []], 'return'], []]]],
+                               'return']},
+ 'UnitQuaternion.isvalid': {'hard': {'defaults': {'check': True},
+                                     'formula': ['and', ['Eq', 'expr', 'shape:4'],
+                                                 ['or', ['not', ['name', 'check']], ['call', 'base.isunitvec', []]]],
+                                     'callees': [['base.isunitvec', [], []]]},
+                            'fine': ['and', ['src', 'x.shape == (4,)'], ['or', ['not', ['src', 'check']], ['src', 'base.isunitvec(x)']]],
+                            'layout': ['return']},
+ 'SO3.isvalid': {'hard': {'defaults': {'check': True},
+                          'formula': ['call', 'base.isrot', [['check', 'True']]],
+                          'callees': [['base.isrot', [['check', 'True']], []]]},
+                 'fine': ['src', 'base.isrot(x, check=True)'],
+                 'layout': ['return']},
+ 'SE3.isvalid': {'hard': {'defaults': {'check': True},
+                          'formula': ['call', 'base.ishom', [['check', 'check']]],
+                          'callees': [['base.ishom', [['check', 'check']], []]]},
+                 'fine': ['src', 'base.ishom(x, check=check)'],
+                 'layout': ['return']},
+ 'SO2.isvalid': {'hard': {'defaults': {'check': True},
+                          'formula': ['or', ['not', ['name', 'check']], ['call', 'tr.isrot2', [['check', 'True']]]],
+                          'callees': [['tr.isrot2', [['check', 'True']], []]]},
+                 'fine': ['or', ['not', ['src', 'check']], ['src', 'tr.isrot2(x, check=True)']],
+                 'layout': ['return']},
+ 'SE2.isvalid': {'hard': {'defaults': {'check': True},
+                          'formula': ['or', ['not', ['name', 'check']], ['call', 'tr.ishom2', [['check', 'True']]]],
+                          'callees': [['tr.ishom2', [['check', 'True']], []]]},
+                 'fine': ['or', ['not', ['src', 'check']], ['src', 'tr.ishom2(x, check=True)']],
+                 'layout': ['return']},
+ 'SMUserList._import': {'hard': {'defaults': {'check': True},
+                                 'formula': ['ite', ['or', ['not', ['name', 'check']], ['call', 'self.isvalid', [['check', 'check']]]], ['name', 'x'],
+                                             ['const', 'None']],
+                                 'callees': []},
+                        'fine': ['ite', ['or', ['not', ['src', 'check']], ['src', 'self.isvalid(x, check=check)']], ['src', 'x'], ['const', 'None']],
+                        'layout': [['if', ['return'], ['return']]]},
+ 'SMUserList.arghandler': {'hard': {'defaults': {'convertfrom': '<expr>', 'check': True},
+                                    'formula': ['or', ['Is', 'expr', 'const:None'],
+                                                ['ite', ['call', 'isinstance', []], ['IsNot', 'expr', 'const:None'],
+                                                 ['ite', ['call', 'isinstance', []],
+                                                  ['or', ['Eq', 'expr', 'const:0'],
+                                                   ['ite', ['call', 'isinstance', []], ['ite', ['call', 'any', []], ['raise'], ['const', 'True']],
+                                                    ['or', ['Eq', 'expr', 'expr'],
+                                                     ['and', ['call', 'argcheck.isnumberlist', []], ['Eq', 'expr', 'const:1'],
+                                                      ['Eq', 'expr', 'expr']]]]],
+                                                  ['or', ['call', 'isinstance', []], ['In', 'expr', 'expr']]]]],
+                                    'callees': [['argcheck.isnumberlist', [], []]]},
+                           'fine': ['or', ['src', 'arg is None'],
+                                    ['ite', ['src', 'isinstance(arg, np.ndarray)'], ['src', '_l0 is not None'],
+                                     ['ite', ['src', 'isinstance(arg, (list, tuple))'],
+                                      ['or', ['src', 'len(arg) == 0'],
+                                       ['ite', ['src', 'isinstance(arg[0], np.ndarray)'],
+                                        ['ite', ['src', 'any((_l0 is None for _l0 in [self._import(_l0, check=check) for _l0 in arg]))'], ['raise'],
+                                         ['const', 'True']],
+                                        ['or', ['src', 'type(arg[0]) == type(self)'],
+                                         ['and', ['src', 'argcheck.isnumberlist(arg)'], ['src', 'len(self.shape) == 1'],
+                                          ['src', 'len(arg) == self.shape[0]']]]]],
+                                      ['or', ['src', 'isinstance(arg, self.__class__)'], ['src', 'arg.__class__ in convertfrom']]]]],
+                           'layout': [['if', ['Assign'],
+                                       [['if', ['Assign', ['if', ['Assign'], ['return']]],
+                                         [['if',
+                                           [['if', ['Assign'],
+                                             [['if', ['Assign', ['if', ['raise'], []], 'Assign'],
+                                               [['if', ['Assert', 'Assign'], [['if', ['Assign'], ['return']]]]]]]]],
+                                           [['if', ['Assign'], [['if', ['Try', 'Assign'], ['return']]]]]]]]]],
+                                      'return']},
+ 'SMUserList.__setitem__': {'hard': {'defaults': {},
+                                     'formula': ['ite', ['not', ['Eq', 'expr', 'expr']], ['raise'],
+                                                 ['ite', ['Gt', 'expr', 'const:1'], ['raise'], ['none']]],
+                                     'callees': []},
+                            'fine': ['ite', ['not', ['src', 'type(self) == type(value)']], ['raise'],
+                                     ['ite', ['src', 'len(value) > 1'], ['raise'], ['none']]],
+                            'layout': [['if', ['raise'], []], ['if', ['raise'], []], 'Assign']},
+ 'SMUserList.append': {'hard': {'defaults': {},
+                                'formula': ['ite', ['not', ['Eq', 'expr', 'expr']], ['raise'],
+                                            ['ite', ['Gt', 'expr', 'const:1'], ['raise'], ['none']]],
+                                'callees': []},
+                       'fine': ['ite', ['not', ['src', 'type(self) == type(item)']], ['raise'],
+                                ['ite', ['src', 'len(item) > 1'], ['raise'], ['none']]],
+                       'layout': [['if', ['raise'], []], ['if', ['raise'], []], 'Expr']},
+ 'SMUserList.extend': {'hard': {'defaults': {}, 'formula': ['ite', ['not', ['Eq', 'expr', 'expr']], ['raise'], ['none']], 'callees': []},
+                       'fine': ['ite', ['not', ['src', 'type(self) == type(iterable)']], ['raise'], ['none']],
+                       'layout': [['if', ['raise'], []], 'Expr']},
+ 'SMUserList.insert': {'hard': {'defaults': {},
+                                'formula': ['ite', ['not', ['Eq', 'expr', 'expr']], ['raise'],
+                                            ['ite', ['Gt', 'expr', 'const:1'], ['raise'], ['none']]],
+                                'callees': []},
+                       'fine': ['ite', ['not', ['src', 'type(self) == type(item)']], ['raise'],
+                                ['ite', ['src', 'len(item) > 1'], ['raise'], ['none']]],
+                       'layout': [['if', ['raise'], []], ['if', ['raise'], []], 'Expr']}}
 TOL = {}   # regenerated defaults, as floats (used by the samplers)
+ESCALATE = set()   # registrations whose function changed textually but not semantically (this run)
 
 
 def consts_pass(ctx):
@@ -483,19 +785,30 @@ def consts_pass(ctx):
              "   Default tolerances (`tol=` keyword defaults) of the predicates modelled in theories/Model/C07_Pred.v. *)\n"
              "From Coq Require Import ZArith.\nFrom SM Require Import Base.Ops.\nSection C. Context {T : Type} (O : ops T).\n"]
     names = []
-    for path, name, cls, cname, expected in MODELLED:
+    ESCALATE.clear()
+    for path, name, cls, cname in MODELLED:
         label = (cls + '.' if cls else '') + name
         try:
-            defaults, sk = fn_skeleton(path, name, cls)
+            hard, fine, layout = fn_summary(path, name, cls)
         except Exception as ex:  # noqa
-            ctx.fail(f'ast:missing:{label}', f"modelled function {label} not found in {path}: {ex}", no_input=True)
-            defaults, sk = {}, None
+            ctx.fail(f'ast:missing:{label}', f"modelled function {label} not found / not analysable in {path}: {ex}", no_input=True)
+            hard, fine, layout = {'defaults': {}}, None, None
+        defaults = hard['defaults']
         ctx.count('ast:functions')
-        if sk is not None and sk != expected:
-            ctx.fail(f'ast:skeleton:{label}',
-                     f"the comparison skeleton of {label} ({path}) differs from the one the hand model was written against: "
-                     f"the model no longer corresponds.  expected {expected}  found {sk}",
-                     {'function': label, 'expected': expected, 'found': sk}, no_input=True)
+        exp = EXPECTED.get(label)
+        if fine is not None and exp is not None:
+            # the tolerance default itself is not part of the comparison: it is regenerated into Consts and the theorems re-prove their side condition
+            strip = lambda h: dict(h, defaults={k: v for k, v in h['defaults'].items() if k != 'tol'})   # noqa: E731
+            if strip(hard) != strip(exp['hard']):
+                ctx.fail(f'ast:skeleton:{label}',
+                         f"the semantic summary of {label} ({path}) -- boolean formula returned, comparison operators and thresholds, defaults, library "
+                         f"callees with keywords -- differs from the one the hand model was written against: the model no longer corresponds.  "
+                         f"expected {exp['hard']}  found {hard}", {'function': label, 'expected': exp['hard'], 'found': hard}, no_input=True)
+            elif fine != exp['fine'] or layout != exp['layout']:
+                what = 'text of an atom' if fine != exp['fine'] else 'statement layout only'
+                ctx.notes.append(f"{label}: same semantic summary, {what} changed -> numeric correspondence of {DEPENDS.get(label, [])} escalated to thorough size")
+                ctx.count('ast:escalated')
+                ESCALATE.update(DEPENDS.get(label, []))
         if cname:
             v = defaults.get('tol')
             if isinstance(v, bool) or not isinstance(v, (int, float)) or not math.isfinite(v):
@@ -1156,6 +1469,13 @@ def run(ctx):
             base_text = g.extract_text          # several python entry points share one model function: extract each once
             g.extract_text = lambda modname: _dedup_extract(base_text(modname))
             sym_num(ctx, g, MOD, ctx.n(150, 12000))
+            if ESCALATE and not ctx.thorough:
+                g2 = Gen('C07')
+                g2.traces = [t for t in g.traces if t.name in ESCALATE]
+                base2 = g2.extract_text
+                g2.extract_text = lambda modname: _dedup_extract(base2(modname))
+                ctx.stats['escalated-registrations'] = sorted(t.name for t in g2.traces)
+                sym_num(ctx, g2, MOD, 12000)
     with ctx.timed('table'):
         table(ctx)
         table_objects(ctx)
